@@ -33,7 +33,9 @@ Definition poke (m : mem) (a : N) (w : list N) : res mem :=
   if all_mapped m a 8 then Ok (put_bytes m a (firstn 8 w)) else Err EIO.
 
 (* read_memory_by_pid(addr, n): aligned words, the first one entered at addr % 8.
-   Panic 10 = Vec::with_capacity(n) with n > isize::MAX ("capacity overflow"). *)
+   The buffer grows as words arrive (at most 64 KiB are reserved up front), so a huge n
+   is not a panic: the loop runs until a word is unmapped.  No address space holds 2^63
+   contiguous mapped bytes, hence EIO for such n (the model does not unroll that loop). *)
 Fixpoint read_words (m : mem) (wa : N) (k : nat) : res (list N) :=
   match k with
   | O => Ok []
@@ -44,7 +46,7 @@ Definition words_covering (a n : N) : nat :=
   if n =? 0 then O else N.to_nat ((a + n - 1) / 8 - a / 8 + 1).
 
 Definition read_memory (m : mem) (a n : N) : res (list N) :=
-  if 2 ^ 63 <=? n then Panic 10 else
+  if 2 ^ 63 <=? n then Err EIO else
   let skip := a mod 8 in
   ws <- read_words m (a - skip) (words_covering a n) ;;
   Ok (firstn (N.to_nat n) (skipn (N.to_nat skip) ws)).
